@@ -136,10 +136,11 @@ check("C05", "PVM",
 check("C03", "PVM",
       rule="case = one untrusted byte string derived from a valid program (compiler-like / hostile blob, standard-program wrapper) by one or two of {none, truncation, bit flips, natural-number field := boundary value, 32-bit length field := boundary value, random bytes, garbage suffix, byte := 00/FF}, plus EVERY truncation of a few valid blobs, "
            "fed to DeBlobProgramCode, SingleInitializer, Psi_M, Psi_A (code as service preimage, with and without metadata prefix), RefineInvoke (code through historical lookup) and machine+invoke (blob in guest memory), gas <= 10^4. Input is logged to disk before each call; monitors: recover()/process death, TotalAlloc delta <= 64 MiB + 8 x (len + sizes the blob declares), return within 60 s. distinct_nontrivial = distinct (target, bytes)",
-      technique="crash / allocation / progress monitors over mutated program blobs in isolated child processes (input logged before every call)",
+      technique="crash / allocation / progress monitors over mutated program blobs in isolated child processes (input logged before every call) + Go native coverage-guided fuzzing of the same entry points with a panic monitor",
       level_text="Every call on untrusted bytes is watched for Go panics, process death, allocation beyond the declared bound and non-termination; held = none observed on what was explored (open finding C03-F2 is re-confirmed by a dedicated trigger case).",
-      note="The 60 s bound is the only wall-clock verdict (10^4 instructions take microseconds). Psi_I is not driven (fixed 50M gas). Go native fuzzing is not used (unseedable); the structured generator is seeded by VERIF_SEED.",
-      shards=(8, 16), floors={"any": {"calls_DeBlobProgramCode": 3000, "calls_Psi_M": 3000, "calls_Psi_A": 3000, "calls_RefineInvoke": 3000, "calls_machine+invoke": 3000, "calls_SingleInitializer": 3000}},
+      note="The 60 s bound is the only wall-clock verdict (10^4 instructions take microseconds). Psi_I is not driven (fixed 50M gas). The structured generator is seeded by VERIF_SEED; the native-fuzz part (Go's coverage-guided fuzzer over the same six targets, seeded with valid programs, bounded by an execution count: 25 000 quick, 3 000 000 thorough) is not seedable and its executions differ from run to run — its oracle (no Go panic) does not.",
+      shards=(8, 16), floors={"any": {"calls_DeBlobProgramCode": 3000, "calls_Psi_M": 3000, "calls_Psi_A": 3000, "calls_RefineInvoke": 3000, "calls_machine+invoke": 3000, "calls_SingleInitializer": 3000, "native_fuzz_execs": 20000}},
+      extra_parts=[{"name": "nativefuzz", "pkg": "PVM", "fuzz": "FuzzVerifC03", "fuzz_execs": {"quick": 25000, "thorough": 3000000}, "timeout": {"quick": 600, "thorough": 7200}}],
       timeout=(1200, 7200))
 
 check("C06", "PVM",
@@ -258,10 +259,11 @@ check("C13", "internal/zzverif/codec",
 check("C14", "internal/zzverif/codec",
       rule="case = one untrusted byte string (the C13 corpus: valid encodings of the 121 types, 6 mutants each, all prefixes of every 10th) fed to the type's decoder, plus fuzz-protocol frames (valid, mutated, with the 32-bit length prefix set to 0, 1, 2, 2^20, 2^28, 2^31-1, 2^31, 2^32-1 or made consistent with the mutated payload) fed to Message.ReadFrom; "
            "the input is logged to disk before each call; monitors: recover() / process death (child processes under an address-space limit), TotalAlloc delta <= 1 MiB + 4096 x input length. distinct_nontrivial = distinct inputs",
-      technique="crash and allocation monitors over mutated encodings and frames in isolated child processes (input logged before every call)",
+      technique="crash and allocation monitors over mutated encodings and frames in isolated child processes (input logged before every call) + Go native coverage-guided fuzzing of all decoders and the frame reader with the same monitors",
       level_text="Every decode of untrusted bytes is watched for Go panics, process death and allocation beyond a constant multiple of the input; held = none observed on what was explored.",
       note=CODEC_NOTE + " The allocation constant (4096 bytes per input byte + 1 MiB) is far above the largest element struct; a decoder that allocates from a length prefix before reading exceeds it by orders of magnitude.",
-      shards=(8, 16), floors={"any": {"decodes_watched": 50000, "frames_watched": 10000, "frames_accepted": 1000}}, mem_gb=6,
+      shards=(8, 16), floors={"any": {"decodes_watched": 50000, "frames_watched": 10000, "frames_accepted": 1000, "native_fuzz_execs": 20000}}, mem_gb=6,
+      extra_parts=[{"name": "nativefuzz", "pkg": "internal/zzverif/codec", "fuzz": "FuzzVerifC14", "fuzz_execs": {"quick": 30000, "thorough": 5000000}, "timeout": {"quick": 600, "thorough": 7200}, "parallel": 4}],
       assumptions=[STANDIN_VRF])
 
 check("C17", "internal/zzverif/c17",
